@@ -53,6 +53,13 @@ def run_spec(pid, tier, spec, replay=None):
             cov[k] = v
     if spec.get("extra_cov"):
         cov.update(spec["extra_cov"](agg))
+    if spec.get("post"):
+        try:
+            pc, pv = spec["post"](tier)
+            cov.update(pc)
+            agg.viol.extend(pv)
+        except c.CannotDecide as e:
+            cannot = cannot or ("post pass could not be built: " + str(e)[:200])
     if level == "model_checking":
         cov.setdefault("states", len(classes))
         cov.setdefault("transitions", cov["evaluations"])
